@@ -105,12 +105,20 @@ func c20Mapping(nested bool) mapping.IndexMapping {
 
 var c20Words = []string{"p", "q", "r"}
 
+// c20Dense: two words only and more elements per array, so that most parents meet each clause
+// of a nested conjunction somewhere - in one element or across several
+var c20Dense = false
+
 func genNDoc(t *rapid.T) nDoc {
 	w := func(l string) string { return rapid.SampledFrom(c20Words).Draw(t, l) }
 	d := nDoc{Title: w("title"), Tag: w("tag")}
-	for i, n := 0, rapid.IntRange(0, 3).Draw(t, "nA"); i < n; i++ {
+	minA, maxA, minS, maxS := 0, 3, 0, 2
+	if c20Dense {
+		minA, maxA, minS, maxS = 1, 4, 1, 3
+	}
+	for i, n := 0, rapid.IntRange(minA, maxA).Draw(t, "nA"); i < n; i++ {
 		a := nA{X: w("x"), Y: w("y")}
-		for j, k := 0, rapid.IntRange(0, 2).Draw(t, "nSub"); j < k; j++ {
+		for j, k := 0, rapid.IntRange(minS, maxS).Draw(t, "nSub"); j < k; j++ {
 			a.Sub = append(a.Sub, nSub{U: w("u"), V: w("v")})
 		}
 		d.A = append(d.A, a)
@@ -336,14 +344,22 @@ func TestC20Nested(t *testing.T) {
 		model := map[string]nDoc{}
 		touched := false
 		mergeWindows := 0
+		// a small or a larger parent population: with a dozen parents the cursors of the clauses
+		// of a nested conjunction run apart, wait for and jump over each other
+		pool, maxOps := DocIDs[:5], 3
+		if rapid.IntRange(0, 2).Draw(t, "bigpool") == 0 {
+			pool, maxOps = BigDocIDs[:14], 6
+			c20Dense, c20Words = true, []string{"p", "q"}
+			defer func() { c20Dense, c20Words = false, []string{"p", "q", "r"} }()
+		}
 		nsteps := rapid.IntRange(1, 8).Draw(t, "nsteps")
 		var hist []string
 		for s := 0; s < nsteps; s++ {
 			switch c := rapid.IntRange(0, 9).Draw(t, "step"); {
 			case c < 7:
 				nb, fb := nidx.NewBatch(), fidx.NewBatch()
-				for i, n := 0, rapid.IntRange(1, 3).Draw(t, "nops"); i < n; i++ {
-					id := rapid.SampledFrom(DocIDs[:5]).Draw(t, "id")
+				for i, n := 0, rapid.IntRange(1, maxOps).Draw(t, "nops"); i < n; i++ {
+					id := rapid.SampledFrom(pool).Draw(t, "id")
 					if _, live := model[id]; live {
 						touched = true
 					}
